@@ -28,6 +28,7 @@ func checkC11(c *Ctx) {
 		"K6 Close: CAS success dominates conn.Close, close(c.done), wg.Wait in that order; wg.Add dominates the go; the receive loop defers wg.Done and returns on any ReadFrom error",
 		"K7 id reuse: every path through cancel looks the entry up under the lock and deletes it when it is present and is the call's own",
 		"K9 cancel removes only the entry this call registered: the delete is guarded by an identity test against the channels/entry created in send",
+		"C10-K5 (shared) lock discipline: pendingMu is released at every return of every function that acquires it, never acquired twice, and every access to the pending map holds it",
 		"C12-K1 (shared) retry driver: only the internal per-try deadline error leads to another try; every other result of a try — the context's error, ErrNoResponse after Close, a write error — is returned at once")
 	r.NotDecided = append(r.NotDecided, "wall-clock bounds and goroutine scheduling", "a PacketConn whose Close does not unblock ReadFrom")
 	r.Expect("C11-clients", 2)
@@ -44,6 +45,9 @@ func checkC11(c *Ctx) {
 		c11Close(c, a)
 		c12Retry(c, a)
 		sentinelFresh(c, a)
+		// "the transaction id is free again" and "later calls complete" need pendingMu released on every exit of every
+		// function that takes it (a goroutine that returns holding it blocks every later send and cancel): C10-K5
+		c10Locks(c, a)
 	}
 }
 
